@@ -281,6 +281,8 @@ def check(prop, tier, seed, only=None):
         want = [w for w in want if "probe:" + w not in have and not only]
         if want:
             with common.Scratch(prop + "-probe") as sc:
+                from . import probes as _probes
+                _probes.prefetch(sc, [w + ".rs" for w in want])
                 for w in want:
                     ob, viol = probe_standin(prop, w, sc, "registered bounded stand-in", by_file=True)
                     if ob:
